@@ -115,3 +115,25 @@ c05_hdr!(c05_hdr_std_all_12_16, std_header_prefixes(0x3d, 12, 16));
 c05_hdr!(c05_hdr_std_weid_4_8, std_header_prefixes(0x26, 4, 8));
 c05_hdr!(c05_hdr_ext_0_5, ext_header_prefixes(0, 5));
 c05_hdr!(c05_hdr_ext_5_10, ext_header_prefixes(5, 10));
+
+// ---- probes: whole-message cuts inside the headers / inside a verbose payload (see DESIGN.md 9.2, 9.7) ----
+macro_rules! c05_whole {
+    ($name:ident, $shape:expr, $from:expr, $to:expr) => {
+        #[kani::proof]
+        #[kani::unwind(48)]
+        #[kani::stub(std::fmt::format, crate::models::fmt_format_stub)]
+        #[kani::stub(core::str::from_utf8, crate::models::from_utf8_stub)]
+        #[kani::stub(dlt_core::parse::forward_to_next_storage_header, crate::models::forward_stub)]
+        fn $name() {
+            let s: Shape = $shape;
+            prefixes(&s, $from, $to, false);
+        }
+    };
+}
+const S_VB_ALL: Shape = Shape { storage: false, htyp: H_ALL_BE, msin: M_LOG_INFO_V, ids: IDS_SHORT, payload: P::Verbose(&[arg(AK::Bool)]) };
+c05_whole!(c05_whole_verbose_bool_cut_2, S_VB_ALL, 2, 3);
+c05_whole!(c05_whole_verbose_bool_cut_9, S_VB_ALL, 9, 10);
+c05_whole!(c05_whole_verbose_bool_cut_20, S_VB_ALL, 20, 21);
+c05_whole!(c05_whole_verbose_bool_cut_26, S_VB_ALL, 26, 27);
+c05_whole!(c05_whole_verbose_bool_cut_28, S_VB_ALL, 28, 29);
+c05_whole!(c05_whole_verbose_bool_cut_30, S_VB_ALL, 30, 31);
